@@ -4,12 +4,21 @@ import CalicoVerif.Props.C03
 /-!
 C05 — Missing or invalid references fail closed.
 
-Property theorems over the model `CalicoVerif/Model/C05.lean` of the profile path of
-`felix/calc/active_rules_calculator.go` and of `felix/calc/validation_filter.go`.
-All theorems quantify over EVERY history of raw datastore updates (endpoints with any
-profile-id lists incl. duplicates and empties, profile rules, deletions, invalid values,
-repeats) starting from a fresh calculator.  The validators themselves are trusted: an update
-carries the bit "passes validation".
+Kinds covered: workload / host endpoints, profile rules (model `Model/C05.lean`: profile path of
+`active_rules_calculator.go` + `validation_filter.go`), policies and tiers (`Model/C05Pol.lean`: the
+ValidationFilter in front of acalc1's C03 model of `policy_resolver.go` / `policy_sorter.go`).
+All theorems quantify over EVERY history of raw datastore updates from a fresh calculator / resolver.
+The validators are trusted: an update carries the bit "passes validation".
+
+* profiles: `view_eq_spec` (= `missing_profile_denies` + `known_profile_real_rules` +
+  `unreferenced_profile_inactive`), tables are last-valid-writer-wins.
+* tiers: `dangling_tier_fails_closed`, `dangling_same_as_never_existed`, `tier_table_after`.
+* policies: `invalid_policy_not_listed_partial`, `pol_table_after`.
+* the filter's contract, on the emitted data: `invalid_eq_absent_emitted_partial`,
+  `invalid_eq_absent_profiles_partial` (`_partial`: only these kinds are modelled; these follow from
+  the definition of `filter` — the content is in the theorems above that say what absence means).
+Not modelled: the deny stand-in's content (`DummyDropRules` is checked by the harness on the real
+value), the validators, other resource kinds, the ARC's label index (the real one runs in the harness).
 -/
 namespace CalicoVerif.C05
 
